@@ -27,6 +27,11 @@ def owns(prop: str, clause: str) -> bool:
     return prop == "C07" or clause in C04_CLAUSES
 
 
+# traces of other kinds (the constant folder's) recorded by the same pytest run: taken by harness/foldtrace.py
+OTHER_TRACES: list[dict] = []
+OTHER_TAIL = ""
+
+
 def _read_trace_files(prefix: str, cap_nodes: int) -> tuple[list[dict], int]:
     traces, big = [], 0
     for f in sorted(glob.glob(prefix + ".*")):
@@ -37,6 +42,8 @@ def _read_trace_files(prefix: str, cap_nodes: int) -> tuple[list[dict], int]:
                     continue
                 t = json.loads(line)
                 if t.get("kind") != "rewriter":
+                    if t.get("kind") == "folder" and len(OTHER_TRACES) < 6000:
+                        OTHER_TRACES.append(t)
                     continue
                 n = sum(len(g["nodes"]) for g in t["meta"]["model"]["graphs"])
                 if n > cap_nodes:
@@ -53,7 +60,9 @@ def collect_pytest(paths: list[str], timeout: int = 2400, cap_nodes: int = 120) 
     cmd = [sys.executable, "-m", "pytest", "-q", "-p", "no:cacheprovider", "--timeout=600", "-n", str(min(8, core.NCPU))] + paths
     p = subprocess.run(cmd, cwd=core.REPO, env=env, capture_output=True, text=True, timeout=timeout)
     tail = re.sub(r"\x1b\[[0-9;]*m", "", (p.stdout.strip().splitlines() or [""])[-1])
+    global OTHER_TAIL
     traces, big = _read_trace_files(prefix, cap_nodes)
+    OTHER_TAIL = tail
     return traces, tail, big
 
 
